@@ -19,6 +19,12 @@ def do_replay(prop, path):
         os.environ.update({k: str(v) for k, v in rp.get("env", {}).items()})
         viol, txt = native_replay(os.path.join(VERIF, "kernels", rp["file"] + ".py"), rp["fn"],
                                   rp["kwargs"])
+    elif rp.get("kind") == "compare":
+        from vf.e1.compare_jobs import replay_compare
+        viol, txt = replay_compare(rp)
+    elif rp.get("kind") == "policy":
+        from vf.e1.parser_jobs import replay_policy
+        viol, txt = replay_policy(rp)
     else:
         from vf.e1.replay import run_replay
         viol, txt = run_replay(rp)
@@ -74,6 +80,9 @@ def main(argv=None):
     for r in results:
         if r["status"] == VIOLATED:
             safe = "".join(c if c.isalnum() or c in "._-" else "_" for c in r["name"])
+            if len(safe) > 110:
+                import hashlib
+                safe = safe[:100] + "_" + hashlib.sha1(r["name"].encode()).hexdigest()[:8]
             path = os.path.join(VERIF, "replays", prop, safe + ".json")
             rp = dict(r.get("replay") or {})
             rp["tier"] = a.tier
